@@ -17,6 +17,8 @@ func init() {
 			"Nested buckets are reported with a nil value: every return of a value taken from a raw cursor step is guarded by a bucket-bit test of that step's own flags (R5). " +
 			"NOT decided: that First/Next/Prev/Seek agree with a sorted list in general; termination beyond the exhaustion discipline (no termination prover is available).",
 		Run: func(c *Ctx) {
+			debugNarrowing(c)
+			ruleNarrowingConfined(c, "C05.R6") // "visits every key exactly once": a cursor over a materialised node addresses element i, not i mod 65536
 			c05R1(c, "C05.R1")
 			c05R2(c, "C05.R2")
 			c05R3(c, "C05.R3")
